@@ -32,7 +32,7 @@ fn settings_with(eol: &str, exec: &str) -> UserSettings {
 
 pub fn run(cfg: &Cfg, out: &mut Out) {
     let mut r = cfg.rng(24);
-    let workspaces = cfg.n(70, 2000);
+    let workspaces = cfg.n(70, 700);
     for _ in 0..workspaces {
         let mut env = Env::new();
         let conflicts = r.chance(2, 3);
@@ -113,7 +113,7 @@ pub fn run(cfg: &Cfg, out: &mut Out) {
     // `respect` exec policy): re-snapshot identity must hold under every policy
     let mut r = cfg.rng(124);
     for (eol, exec) in [("input-output", "respect"), ("input", "ignore"), ("none", "ignore"), ("input-output", "auto")] {
-        for _ in 0..cfg.n(6, 100) {
+        for _ in 0..cfg.n(6, 40) {
             let mut env = Env::with_settings(&settings_with(eol, exec));
             for _ in 0..4 {
                 let gt = gen_tree(&mut r, true);
